@@ -59,10 +59,31 @@ def _table(src=None):
         probs = []
         mod = F.Module(src, 'pyramid/httpexceptions.py')
         classes = factsx.class_table(mod.tree, probs)
-        pf = factsx.prepare_facts(mod, probs)
+        from . import translate
+        _, meta = translate.generate(src, probs)
         _cache[src] = {'classes': {e['name']: e for e in classes}, 'order': [e['name'] for e in classes],
-                       'offers': pf['offers'], 'formats': factsx.raiser_formats(src, probs)}
+                       'offers': meta.get('offers') or ['text/html', 'application/json'],
+                       'accept_query': _accept_query(meta),
+                       'formats': factsx.raiser_formats(src, probs)}
     return _cache[src]
+
+
+def _accept_query(meta):
+    """(key, default) of the environ.get(..) whose value prepare() negotiates on (read by the translator)"""
+    import ast as _ast
+    try:
+        k, d = meta['env_get'][0]
+        k, d = _ast.literal_eval(k), _ast.literal_eval(d)
+        if isinstance(k, str) and isinstance(d, str):
+            return [k, d]
+    except Exception:
+        pass
+    return ['HTTP_ACCEPT', '']
+
+
+def _accept_of(env):
+    k, d = _table()['accept_query']
+    return env.get(k, d)
 
 
 def facts(src):
@@ -369,7 +390,7 @@ def to_wire(case):
     if case['via'] == 'history':
         steps = []
         for env in case['calls']:
-            steps.append([[list(kv) for kv in env], oracle_offers(dict(map(tuple, env)).get('HTTP_ACCEPT', ''))])
+            steps.append([[list(kv) for kv in env], oracle_offers(_accept_of(dict(map(tuple, env))))])
         return [case['cls'], _opt(case['detail']), _opt(case['comment']), _opt(case['explanation']), case['location'],
                 [list(kv) for kv in case['headers']], _opt(case['body_template']), steps]
     if case['via'] == 'app':
@@ -384,7 +405,7 @@ def to_wire(case):
     env = dict(map(tuple, case['environ']))
     return [case['cls'], _opt(case['detail']), _opt(case['comment']), _opt(case['explanation']), case['location'],
             [list(kv) for kv in case['headers']], [list(kv) for kv in case['environ']], _opt(case['body_template']),
-            oracle_offers(env.get('HTTP_ACCEPT', ''))]
+            oracle_offers(_accept_of(env))]
 
 
 def _dec(o):
@@ -571,7 +592,7 @@ def _history_holds(case, obs, spec):
             constrained = True
             d = _as_direct(case, js[0])
             env = dict(map(tuple, d['environ']))
-            offers = oracle_offers(env.get('HTTP_ACCEPT', ''))
+            offers = oracle_offers(_accept_of(env))
             if spec_holds(d, r, [singles[js[0]], offers[0] if offers else 'text/plain']) is False:
                 return False
         elif singles[k][0] == 'OK':
